@@ -15,8 +15,8 @@ LEVEL_TEXT = ("static conformance of the code's shape to the obligation table of
               "beyond those clauses (solver correctness, the cited theorems) is not decided.")
 
 CLAIMED = {
-    "C01": ("§4 C01", "decides: C01.negation, C01.polarity, C01.mode-arg, SHORTCUT.guard, SHORTCUT.dominance, DISPATCH, PART.* on "
-                      "`consistency`. Assumes: Goldszmidt-Pearl equivalence, SAT solver correctness, API semantics tables in vlib/models.py",
+    "C01": ("§4 C01", "decides: C01.negation, C01.polarity, C01.mode-arg, KEY.no-reserved (the negated query's key cannot collide with a key of "
+                      "the base), SHORTCUT.guard, SHORTCUT.dominance, DISPATCH, PART.* on `consistency`. Assumes: Goldszmidt-Pearl equivalence, SAT solver correctness, API semantics tables in vlib/models.py",
             "abstract interpretation (path-sensitive effect/decision extraction) + truth-table comparison + who-may-call"),
     "C06": ("§4 C06", "decides: PART.context/split/balance/terminal/advance/entry/siblings on both partition variants, REFUSE, PREPROC.once, "
                       "who-may-call of the preprocessing hook. Assumes: uniqueness theorem of the tolerance partition, solver correctness, "
@@ -26,16 +26,18 @@ CLAIMED = {
 }
 
 CLAIMED.update({
-    "C02": ("§4 C02", "decides: Z.partition-flow, Z.layer-assert, Z.tests, Z.decision (table over v, f, k=0), Z.start, SHORTCUT.*, DISPATCH, PART.* "
+    "C02": ("§4 C02", "decides: Z.partition-flow, Z.layer-assert, Z.tests, Z.decision (table over v, f, k=0), Z.start (incl. answers given in front of "
+                      "the recursion must follow from the query alone), SHORTCUT.*, DISPATCH, PART.* "
                       "on `consistency`. Assumes: partition theorem, SAT solver correctness, API tables",
             "abstract interpretation (solver-scope typestate, decision table) + truth-table comparison"),
     "C03": ("§4 C03", "decides for both back-ends: W.soft/hard, W.ignore, W.subset-test (evaluated on all families over {∅,{1},{2},{1,2}}), W.decision "
                       "incl. recursion constraints, W.balance, W.start, W.query-slot, SHORTCUT.*, DISPATCH, PART.*; the enumeration is used through "
-                      "the summary established under C15. Assumes: SWinf correctness theorem, MaxSAT solver correctness",
+                      "the summary whose obligations (CNF.*, MCS.*, Z3MCS.*) are discharged in the same check. Assumes: SWinf correctness theorem, "
+                      "MaxSAT solver correctness",
             "abstract interpretation (WCNF/Optimize item sets, generic-loop exit analysis) + finite-model evaluation of the subset predicate"),
     "C04": ("§4 C04", "decides for both back-ends: LEX.soft/hard, LEX.strict-shortcuts, LEX.cardinality (evaluated over all cardinalities 0..2), "
                       "LEX.tie-quantifier and LEX.tie-constraints (two abstract witnesses per side, Rec uninterpreted), LEX.start, SHORTCUT.*, "
-                      "DISPATCH, PART.*. Assumes: as C03",
+                      "DISPATCH, PART.*, CNF.*, MCS.*, Z3MCS.*. Assumes: as C03",
             "abstract interpretation + two-witness instantiation of the tie loops + decision-table comparison"),
     "C15": ("§4 C15", "decides: CNF.roles, CNF.literals, CNF.constants (incl. handling, on witness goals), CNF.pool, MCS.violated, MCS.block, "
                       "MCS.minimal (three abstract sets, ⊆ uninterpreted), MCS.loop, CACHE.readonly for clauses. Assumes: z3's tseitin-cnf tactic "
@@ -45,8 +47,9 @@ CLAIMED.update({
 
 CLAIMED.update({
     "C05": ("§4 C05", "decides: C.minima-roles, C.relations (linear forms: η_i − mv_i + mf_i > 0, η_i ≥ 0, minima encoding, query constraint, answer "
-                      "polarity), C.query-edges, C.empty-minimum, C.selffulfilling, KEY.no-positional on the η/mv/mf name families. Assumes: the "
-                      "compilation theorem (von Berg et al.), SMT solver correctness, the enumeration summary established under C15",
+                      "polarity, one summand Σ η_j per correction set), C.query-edges, C.empty-minimum, C.selffulfilling, KEY.no-positional on the "
+                      "η/mv/mf name families, CNF.*, MCS.* (the enumeration summary is discharged in the same check). Assumes: the compilation "
+                      "theorem (von Berg et al.), SMT solver correctness",
             "abstract interpretation + canonical linear forms + provenance qualifiers of indices"),
     "C07": ("§4 C07", "decides for p-entailment, System Z, System W (rc2, z3), lex (rc2, z3): EXT.inf-hard, EXT.vacuity (guards compared over "
                       "satisfiability patterns), EXT.start-total (integer reasoning over len(P) ≥ 1), EXT.only-infinity, EXT.pinf, and the "
@@ -62,10 +65,12 @@ CLAIMED.update({
     "C12": ("§4 C12", "decides: KEY.no-reserved, KEY.no-positional, NONINTERF. Not decided: invariance under reordering, atom renaming and "
                       "equivalent rewriting (semantic)",
             "provenance qualifiers of keys and indices carried by the abstract values + non-interference audit of decisions and answers"),
-    "C13": ("§4 C13", "decides: STATE.lifetime, ROWS.key, PAR.key, PAR.join, QUERYSLOT.def-before-use (also on the state an earlier query left "
-                      "behind), CACHE.readonly, PREPROC.once. Not decided: scheduling of processes, fork semantics",
+    "C13": ("§4 C13", "decides: STATE.lifetime, STATE.solver-per-query, ROWS.key, ROWS.columns, PAR.key, PAR.join, QUERYSLOT.def-before-use (also on "
+                      "the state an earlier query left behind), CACHE.readonly, PREPROC.once. Not decided: scheduling of processes, fork semantics",
             "attribute-lifetime audit over the class hierarchy + abstract interpretation of the wrappers (key provenance, process typestate)"),
-    "C14": ("§4 C14", "decides: CHECK.three-way, TIMEOUT.flow, TIMEOUT.row, TIMEOUT.guarded-raise, PREPROC.once. Not decided: when an expiry "
+    "C14": ("§4 C14", "decides: CHECK.three-way, TIMEOUT.flow, TIMEOUT.row (query rows, worker rows, rows after a preprocessing timeout), "
+                      "TIMEOUT.guarded-raise (an observed expiry leaves the enumeration by TimeoutError only), STATE.solver-per-query, "
+                      "ROWS.columns, PREPROC.once. Not decided: when an expiry "
                       "happens, z3 honouring its timeout",
             "typestate of check()/model() with a three-valued result + handler audit over the call paths + abstract interpretation of the wrappers"),
 })
@@ -81,7 +86,8 @@ CLAIMED.update({
             "abstract interpretation + provenance qualifiers of indices"),
     "C18": ("§4 C18", "decides: RANK.min, ACCEPT.decision, MARG.bits, COND.filter, TPO.order, WORLD.literals. Assumes: solver, BitVector",
             "abstract interpretation (accumulator update tables, decision tables, key construction)"),
-    "C20": ("§4 C20", "decides three clauses: SAVE.restore (all exits incl. failing open/dump), IMPACTS.keys, FORMAT.agree (tables over suffix "
+    "C20": ("§4 C20", "decides three clauses: SAVE.restore (all exits incl. failing open/dump), IMPACTS.keys, IMPACTS.accept (no legitimate vector "
+                      "rejected on reload), FORMAT.agree (tables over suffix "
                       "classes x fmt, loader fallbacks followed through exceptional paths). Not decided: pickling across interpreters, equality "
                       "of continued lazy computation",
             "typestate with exceptional exits + writer/reader table agreement"),
@@ -90,8 +96,9 @@ CLAIMED.update({
 CLAIMED.update({
     "C10": ("§4 C10", "decides: GRAMMAR.rules (operator table, precedence by alternative order, associativity, conditional/strict forms, read "
                       "from the .g4 files), GRAMMAR.generated (generated parsers agree with the grammar on rules and token vocabulary), "
-                      "VISITOR.meaning (each visitor method builds the connective / conditional its rule denotes, consequence-antecedence order), "
-                      "PARSE.reject (EOF reached, error listener raising, duplicate / undeclared / reserved names rejected). Not decided: ANTLR runtime",
+                      "LEX.skip (incl. non-greedy delimited tokens), LEX.generated (serialized ATN of the generated lexer decoded and compared with "
+                      "the grammar: literals, characters, wildcards, greediness, skip actions), VISIT.meaning, VISIT.order (list rules keep "
+                      "file order, lose nothing), VISIT.keys, REJECT.listeners, REJECT.eof (lookahead 1), REJECT.signature. Not decided: ANTLR runtime",
             "grammar reader + abstract interpretation of the visitors + who-may-call / typestate of the parse entry points"),
 })
 
